@@ -229,7 +229,7 @@ def strata(tier):
         n = 40 if q else 1500
         for tr in PLANE_TRIPLES:
             out.append(Stratum("PL-%s/%s" % (kK, "-".join(tr)), "hyp", gen.with_variant(case_for(kK, "PL", *tr)), n))
-        for rec in ("face", "parallel-in", "parallel-out", "tangent-V", "tangent-E"):
+        for rec in ("face", "parallel-in", "parallel-out", "tangent-V", "tangent-E") + (("cap-V", "tangent-far-V") if kK == "K" else ()):
             out.append(Stratum("PL-%s/%s" % (kK, rec), "hyp", gen.with_variant(case_special_plane(kK, rec)), n))
         out.append(Stratum("PL-%s/free" % kK, "hyp", gen.with_variant(case_free(kK, "PL")), n))
         for kf in ("P", "L", "H", "S", "PL"):
